@@ -26,7 +26,7 @@ def subharnesses(tier):
     # a transient failure of one IP-set removal (ipset returns an error, or
     # the finish process is killed there); the finish is then run again, as
     # the cleanup service does
-    for nep in (0, 1, 2):
+    for nep in ((0, 1) if tier == 'quick' else (0, 1, 2)):
         for vring in (False, True):
             for il in (2, 3):
                 subs.append(('ep%d-pass1-%s-order%d-ipset_fault' % (
